@@ -98,9 +98,16 @@ func TestSim(t *testing.T) {
 		// space such a request fails at once (fatal "out of memory", which the driver reports as a process crash and
 		// replays) instead of succeeding on a large machine and starving everything else
 		lim := uint64(p.MemLimitGB) << 30
-		if err := syscall.Setrlimit(syscall.RLIMIT_AS, &syscall.Rlimit{Cur: lim, Max: lim}); err != nil {
-			fmt.Fprintf(os.Stderr, "harness: cannot bound the address space: %v\n", err)
-			os.Exit(2)
+		var cur syscall.Rlimit
+		if err := syscall.Getrlimit(syscall.RLIMIT_AS, &cur); err == nil {
+			if cur.Max < lim {
+				lim = cur.Max // an environment that is already tighter stays as tight as it is
+			}
+			// only the soft limit is lowered; a failure to do so is reported and not fatal (the run is then merely
+			// unprotected against inputs that make the server allocate absurd amounts)
+			if err := syscall.Setrlimit(syscall.RLIMIT_AS, &syscall.Rlimit{Cur: lim, Max: cur.Max}); err != nil {
+				fmt.Fprintf(os.Stderr, "harness: cannot bound the address space: %v\n", err)
+			}
 		}
 	}
 	switch j.Mode {
